@@ -91,6 +91,7 @@ class Analysis:
         # contract-declared calls whose result is a fresh object: {function id: {callee source text}}
         self.fresh_calls = fresh_calls or {}
         self.cached: set[str] = set()   # names bound to lru_cache'd callables
+        self.setters: dict[str, list] = defaultdict(list)   # property name -> setter functions
         self.funcs: dict[str, Func] = {}
         self.by_name: dict[str, list[Func]] = defaultdict(list)       # bare function name -> funcs
         self.methods: dict[str, list[Func]] = defaultdict(list)       # method name -> funcs
@@ -143,8 +144,13 @@ class Analysis:
         def visit(body, prefix, cls):
             for n in body:
                 if isinstance(n, (ast.FunctionDef, ast.AsyncFunctionDef)):
-                    f = Func(module, relpath, prefix + n.name, n, cls)
+                    is_setter = any(isinstance(d, ast.Attribute) and d.attr == "setter" for d in n.decorator_list)
+                    f = Func(module, relpath, prefix + n.name + (".setter" if is_setter else ""), n, cls)
                     self.funcs[f.id] = f
+                    if is_setter:
+                        self.setters[n.name].append(f)
+                        visit(n.body, prefix + n.name + ".setter.", None if cls is None else cls)
+                        continue
                     if cls is None and not prefix:
                         self.module_funcs[relpath][n.name] = f
                         self.by_name[n.name].append(f)
@@ -401,6 +407,13 @@ class Analysis:
                 for t in s.targets:
                     scan_targets(t, env)
                     target_write(t, s, "store", env)
+                    if isinstance(t, ast.Attribute) and t.attr in self.setters:
+                        for g in self.setters[t.attr]:
+                            f.calls.add(g.id)
+                            for w in list(g.writes.values()):
+                                if w.root == g.params[0]:
+                                    for rr in _own(prov(t.value, env)):
+                                        add_write(rr, w.path, "via-setter", s, via=g.id)
                     if isinstance(t, ast.Attribute):
                         for holder in _own(prov(t.value, env)):
                             for src in {x.lstrip("~") for x in r}:
